@@ -19,7 +19,7 @@ ASSUMPTIONS = [
     "block and source-SCC strategies are not yet modelled in Lean: they are covered by the Lean judge on the real diagram only",
 ]
 STRATS = ["bfs", "dfs", "min", "minskip", "aseeds", "block", "block_nosrc", "block_nomaa", "block_exact",
-          "scc", "scc_nomaa", "limit+skip", "limit+skip", "aseeds+limit"]
+          "scc", "scc_nomaa", "limit+skip", "limit+skip", "aseeds+limit", "aseeds+limit"]
 
 
 def budget(tier):
@@ -51,7 +51,7 @@ def strat_ops(rng, st):
         return [["scc", False]]
     if st == "aseeds+limit":
         # a size limit that can bite in the minimal-space phase of attractor-seed expansion; True must still mean complete
-        return [["aseeds", rng.randint(2, 9)]]
+        return [["aseeds", rng.randint(1, 9)]]
     lim = rng.randint(1, 7)
     first = rng.choice([["bfs", 0, None, lim], ["dfs", 0, None, lim], ["min", 0, lim, False], ["aseeds", lim],
                         ["blockx", True, lim, True, False], ["bfs", 0, rng.randint(0, 2), None]])
@@ -64,8 +64,9 @@ def gen_case(rng, tier, k):
     st = rng.choice(STRATS)
     if (st.startswith("scc") or st.startswith("block")) and rng.random() < 0.5:
         bnet = common.g_modulated(rng, focus=rng.random() < 0.4)
-    if st == "aseeds+limit" and rng.random() < 0.6:
-        bnet = common.g_union(rng, nmax=nmax + 1, nested=rng.random() < 0.3)
+    if st == "aseeds+limit" and rng.random() < 0.8:
+        # small latch pairs / triples (contradicting sibling motifs right below the root) or unions of modules
+        bnet = common.g_lattice(rng, rng.randint(2, 3)) if rng.random() < 0.6 else common.g_union(rng, nmax=nmax + 1, nested=rng.random() < 0.3)
     if st.startswith("block") and rng.random() < 0.3:
         # independent modules with downstream latches: several source blocks per node, some nested in others
         bnet = common.g_union(rng, nmax=nmax + 1, nested=True)
